@@ -50,6 +50,12 @@ def normalise_calls(node):
             if isinstance(f, ast.Attribute) and isinstance(f.value, ast.Name) and f.value.id in ("np", "numpy") and n.args:
                 if f.attr == "logical_not" and len(n.args) == 1:
                     return ast.UnaryOp(op=ast.Invert(), operand=n.args[0])
+                if f.attr in ("hstack", "vstack", "column_stack") and len(n.args) == 1 and not n.keywords and isinstance(n.args[0], (ast.List, ast.Tuple)):
+                    # for operands of two or more dimensions (the only case where the axis-keyword form they are compared with is defined)
+                    return ast.Call(func=ast.Attribute(value=ast.Name(id="np", ctx=ast.Load()), attr="concatenate", ctx=ast.Load()), args=[n.args[0]],
+                                    keywords=[ast.keyword(arg="axis", value=ast.Constant(value=0 if f.attr == "vstack" else 1))])
+                if f.attr == "concatenate" and len(n.args) == 2 and not n.keywords:
+                    return ast.Call(func=f, args=[n.args[0]], keywords=[ast.keyword(arg="axis", value=n.args[1])])
                 if f.attr in DUAL_METHODS:
                     n = ast.Call(func=ast.Attribute(value=n.args[0], attr=f.attr, ctx=ast.Load()), args=n.args[1:], keywords=n.keywords)
             f = n.func
@@ -271,7 +277,9 @@ def missing_names(scope, expected):
             t = ast.parse(e, mode="eval").body if isinstance(e, str) else e
         except SyntaxError:
             continue
-        names = {n.id for n in ast.walk(t) if isinstance(n, ast.Name)}
+        own = {x.id for n in ast.walk(t) if isinstance(n, ast.comprehension) for x in ast.walk(n.target) if isinstance(x, ast.Name)} | \
+              {a.arg for n in ast.walk(t) if isinstance(n, ast.Lambda) for a in n.args.args}
+        names = {n.id for n in ast.walk(t) if isinstance(n, ast.Name)} - own
         miss = {n for n in names if n not in bound and n not in glob and not hasattr(builtins, n) and n not in ("np", "self")}
         out = miss if out is None else (out & miss)
     return out or set()
@@ -289,3 +297,28 @@ def expect_call(ctx, rule, unit, qn, scope, callee, site, why, args=None, presen
         return calls[0]
     ctx.violation(rule, unit.relpath, qn, norm_src(stmt_of(calls[0]))[:200], f"{why} (found `{norm_src(calls[0])[:120]}`)", line=calls[0].lineno, site=site)
     return None
+
+
+def value_cases(cfg, st, expr, depth=0):
+    """[(literals, expression)]: the values `expr` can take at statement `st`, split along conditional expressions and along the reaching
+    definitions of a plain name assigned in different branches; literals = conditions known to hold for that case (implied_literals form)"""
+    from .flow import implied_literals, _atom, ENTRY
+    base = frozenset(implied_literals(st)) if depth == 0 else frozenset()
+    if depth > 4:
+        return [(base, expr)]
+    if isinstance(expr, ast.IfExp):
+        out = []
+        for pol, sub in ((True, expr.body), (False, expr.orelse)):
+            lits = frozenset((c[1], c[2]) for c in _atom(expr.test, pol) if c[0] == "lit")
+            out += [(base | lits | l2, e2) for l2, e2 in value_cases(cfg, st, sub, depth + 1)]
+        return out
+    if isinstance(expr, ast.Name):
+        defs = cfg.reaching().get(st, {}).get(expr.id, frozenset())
+        defs = [d for d in defs if d is not ENTRY]
+        if defs and all(isinstance(d, ast.Assign) and len(d.targets) == 1 and isinstance(d.targets[0], ast.Name) for d in defs):
+            out = []
+            for d in defs:
+                dl = frozenset(implied_literals(d))
+                out += [(base | dl | l2, e2) for l2, e2 in value_cases(cfg, d, d.value, depth + 1)]
+            return out
+    return [(base, expr)]
